@@ -916,10 +916,36 @@ decLoop:
 	}
 	if len(clean) > 0 {
 		attr.Val = strings.Join(clean, "; ")
+		if !styleReadsBack(attr.Val, clean) {
+			attr.Val = ""
+		}
 	} else {
 		attr.Val = ""
 	}
 	return attr
+}
+
+// styleReadsBack reports whether the style that is about to be written is read
+// as exactly the declarations that were accepted. The parser removes a single
+// trailing !important and trims an escaped space, so a value can still end in
+// !important, or in an escape that swallows the separator written after it:
+// such a style would be judged differently, or not at all, by whoever parses
+// the output next.
+func styleReadsBack(style string, clean []string) bool {
+	style = strings.TrimRight(style, " ")
+	if len(style) > 0 && style[len(style)-1] != ';' {
+		style = style + ";"
+	}
+	decs, err := parser.ParseDeclarations(style)
+	if err != nil || len(decs) != len(clean) {
+		return false
+	}
+	for i, dec := range decs {
+		if dec.Important || dec.Property+": "+dec.Value != clean[i] {
+			return false
+		}
+	}
+	return true
 }
 
 func (p *Policy) allowNoAttrs(elementName string) bool {
